@@ -240,8 +240,9 @@ class Check:
                 if ok:
                     self.violations.append((job, v, rp))
                 elif ok is None:
-                    # no native driver: report, but flagged as unconfirmed in the replay file
-                    self.violations.append((job, v, rp))
+                    # no native driver for this job: an engine counterexample that cannot be replayed against
+                    # the real build is never reported as a violation
+                    self.inconclusive.append('%s: counterexample for "%s" could not be replayed natively (%s)' % (job['name'], v['label'], out[-200:]))
                 else:
                     self.inconclusive.append('%s: counterexample for "%s" did not reproduce natively (engine/stub disagreement): %s' % (job['name'], v['label'], out[-400:]))
 
